@@ -36,7 +36,10 @@ def core_pool(tier):
     p += [("-0x1", ("int", -1, "arith")), ("18446744073709551615", ("int", (1 << 64) - 1, "arith")), ("-9223372036854775808", ("int", -(1 << 63), "arith")),
           ("[5] elem pos", ("int", 0, "arith")), ("[5, 6] elem (pos == 1) pos", ("int", 1, "arith"))]
     p += [("true", ("int", 1, "bool")), ("false", ("int", 0, "bool")), ("T_CONST", None), ("T_STR", None), ("T_SEQ", None)]
-    for s in (b"", b"a", b"ab", b"a\x00", b"a\x00b", b"\xff", b"b", b"\x7f", b"\x80"):
+    strs = [b"", b"a", b"ab", b"a\x00", b"a\x00b", b"a\x00c", b"\xff", b"b", b"\x7f", b"\x80"]
+    # every byte string of up to 2 bytes over {00, 'a', 'b', ff}: strings that agree up to an embedded NUL and differ after it
+    strs += [bytes(t) for n in (1, 2) for t in itertools.product((0, 0x61, 0x62, 0xff), repeat=n) if bytes(t) not in strs]
+    for s in strs:
         p.append(('"' + "".join("\\x%02x" % c for c in s) + '"', ("str", s)))
     seqs = [("[]", []), ("[1]", [1]), ("[2]", [2]), ("[1, 2]", [1, 2]), ("[1, 1]", [1, 1]), ("[[1]]", [[1]]), ("[[]]", [[]]), ("[0x1]", [1]), ("[2, 1]", [2, 1])]
     for t, v in seqs:
